@@ -82,6 +82,18 @@ def covers (r : Res) (w : Wants) : Bool :=
 
 def specRes (r : Res) (w : Wants) (answer : Bool) : Bool := !answer || covers r w
 
+/-- Input well-formedness assumed by the theorems about a round: every range of
+    every offer and of every template has begin ≤ end. -/
+def offersValid (os : List Offer) : Bool := os.all (fun o => OValid o.res.ports)
+
+def staticValid (m : Mode) (ds : List Desc) : Bool :=
+  ds.all fun d => match d.cls with
+    | some c => Valid (c.wants m).static
+    | none => true
+
+def validInputs (m : Mode) (descs : List Desc) (order : List Offer) : Bool :=
+  offersValid order && staticValid m descs
+
 /-! ## ports of launched tasks -/
 
 def nodupNat : List Nat → Bool
